@@ -32,7 +32,7 @@ PY = "/venv/bin/python"
 ENGINE_OF = {
     "C02": "engines.fedengine", "C03": "engines.fedengine", "C04": "engines.fedengine",
     "C05": "engines.fedengine", "C08": "engines.fedengine", "C10": "engines.fedengine",
-    "C17": "engines.fedengine", "C20": "engines.fedengine",
+    "C17": "engines.fedengine", "C20": "engines.c20engine",
     "C18": "engines.storesim", "C19": "engines.storesim",
     "C16": "engines.mdsim", "C15": "engines.threadsim",
 }
